@@ -172,6 +172,42 @@ func c10Case(c *core.Case) {
 		}
 		c.Count("variables-agree-with-generated-ast")
 	}
+	if c.Index%3 == 1 {
+		// the same source as a fragment of a larger document: a start position
+		// other than the beginning of a file changes reported ranges, nothing else
+		r := c.Rng
+		off := 1 + r.Intn(40)
+		if gen.Chance(r, 0.3) {
+			off = len(src) + r.Intn(5000)
+		}
+		start := hcl.Pos{Line: 1 + r.Intn(90), Column: 1 + r.Intn(70), Byte: off}
+		sf2, sd2 := hclsyntax.ParseConfig(src, "t.hcl", start)
+		wf2, wd2 := hclwrite.ParseConfig(src, "t.hcl", start)
+		c.Evals(2)
+		if sd2.HasErrors() {
+			c.Violation("fragment/hclsyntax-errors-at-start-position", fmt.Sprintf("hclsyntax.ParseConfig at start %#v reports errors for a source that parses at the initial position: %s", start, diagStr(sd2)), nil)
+			return
+		}
+		if wd2.HasErrors() || wf2 == nil {
+			c.Violation("fragment/load-error", fmt.Sprintf("hclwrite.ParseConfig at start %#v reports errors: %s", start, diagStr(wd2)), nil)
+			return
+		}
+		// (token sequence, as the property says: the loader counts the start offset as
+		// spaces before the first token, which the formatter then mostly removes again)
+		out2 := wf2.Bytes()
+		out2Toks, _ := lexPairs(out2)
+		if d := firstTokDiff(srcToks, out2Toks); d != "" {
+			c.Violation("fragment/tokens-lost/"+tokDiffShape(srcToks, out2Toks), fmt.Sprintf("the tree loaded at start %#v serialises to a different token sequence: %s", start, d), map[string]any{"out": string(out2)})
+			return
+		}
+		padded := append(bytes.Repeat([]byte(" "), off), src...)
+		t2 := 0
+		if msg, cls := c10Compare(c, padded, sf2.Body.(*hclsyntax.Body), wf2.Body(), "root", &t2); msg != "" {
+			c.Violation("fragment/tree-view/"+cls, fmt.Sprintf("loaded at start %#v: %s", start, msg), nil)
+			return
+		}
+		c.Count("fragment-start-positions-agreed")
+	}
 	items := len(sf.Body.(*hclsyntax.Body).Attributes) + len(sf.Body.(*hclsyntax.Body).Blocks)
 	if items >= 2 && trav >= 1 {
 		c.NonTrivial(string(src))
